@@ -142,7 +142,7 @@ Theorem C09_spec_partial :
 Proof. exact spec_partial. Qed.
 
 (** Small-scope sweep of the complete executable specification (a test):
-    all 6486 guarded signatures among [small_sigs] (<= 2 parameters). *)
+    all (at least 6486) guarded signatures among [small_sigs] (<= 2 parameters). *)
 Theorem C09_spec_bounded_2 :
   forall s, In s small_sigs -> guard s = true -> spec_ok s (sig_cli s) = true.
 Proof. exact spec_bounded. Qed.
